@@ -33,6 +33,14 @@ CHECKS = {
    technique="TLA+ model of the client file-system layer over an abstract 9P session (CFileSys.tla) checked by TLC; its complete LTS replayed on the real CFileSys over a spying session and the real server, with the issued session call and the server's bound-fid set compared after every step",
    text="TLC enumerates all reachable states of the entry/fid bookkeeping (fresh fids, live entries, server-bound set) for all name lists over the special forms and all server outcomes (complete / partial k / error) and checks: distinct fids per live entry, exactly the live entries' fids bound, steps sent are valid walk elements, normalisation idempotent. Every transition is executed on p9p.CFileSys(spy(p9p.SFileSys(scriptedFS))): the session call (method, fid, newfid, names) must be the model's, success is reported iff the server completed, the returned entry carries the walked-to qid, the real server's fid table equals the model's after each step and is empty after all entries are clunked.",
    note="Trusted: the normalisation transcribed into CFileSys.tla from the property text; the spy; direct Stat probes on the server session. Bounds: <=5 fid allocations, <=3 live entries per history."),
+ "C01": dict(engine="wire", cat="exploration", ref="5 C01",
+   technique="9P2000 wire layout transcribed from the manual into TLA+ (Wire9P.tla); TLC evaluates Encode on a boundary-dense vector set and exports the layout table; the real codec is compared byte-for-byte, both directions",
+   text="The specification is used as a self-contained function with rich case analysis: TLC computes the expected bytes of ~500 message / stat vectors (every kind, every field and sub-field over its boundary values, distinct patterns per field so that swaps and width errors change the bytes) and the harness requires Marshal == bytes, Size == len(bytes), Unmarshal(bytes) == message and EncodeDir/DecodeDir likewise; values too long for TLC (65535-byte strings and stat records, 65535 list elements, 1 MiB data) are covered by seeded random messages encoded by an interpreter of the TLC-exported layout table, itself checked against TLC's bytes on every vector. Exploration driven by the model, not exhaustive.",
+   note="Trusted: the manual transcription in Wire9P.tla; TLC's evaluation; the 60-line layout interpreter (bound to the spec on every enumerated vector)."),
+ "C04": dict(engine="wire", cat="exploration", ref="5 C04",
+   technique="hostile-input grammar derived from the TLA+ layout (Wire9P.Encode reports offset/width of every length and count field); real decoder run on every mutated input under recover with allocation measurement and re-encode stability check",
+   text="For every spec vector the positions of all length/count fields come from the specification; each is replaced by boundary values, inputs are truncated at every point, extended, given illegal type bytes and combined (seeded); every input is decoded as a message and as a directory entry. Oracles are the three clauses of the property: no panic, TotalAlloc delta <= 4 MiB + 64 B per input byte, decode(encode(v)) == v on success. Exploration (tens of thousands of structured inputs), not a proof over all byte strings.",
+   note="Trusted: allocation measurement via runtime.MemStats in a single goroutine. The family is structured (grammar-derived) plus 2000 random strings; it is not all byte strings up to msize."),
 }
 
 NA_REASON = "check not built yet in this round; planned per DESIGN.md section 5 (specification exists or is planned, no verdict is claimed)"
